@@ -82,5 +82,11 @@ inductive RunsTo (h : Handler σ) (u : Time) : KState σ → KState σ → Prop
   | step (k k1 k2 : KState σ) (e : HEntry) : k.peek = some e → e.time < u →
       k.step h = some k1 → RunsTo h u k1 k2 → RunsTo h u k k2
 
+/-- a paused run: `start(u₁)`, `resume(u₂)`, …, `resume(uₙ)` -/
+inductive SegRuns (h : Handler σ) : List Time → KState σ → KState σ → Prop
+  | nil (k : KState σ) : SegRuns h [] k k
+  | cons (u : Time) (us : List Time) (k k1 k2 : KState σ) :
+      RunsTo h u k k1 → SegRuns h us k1 k2 → SegRuns h (u :: us) k k2
+
 end KState
 end Topsim
